@@ -834,7 +834,8 @@ func (c *compiler) compileForeach(e *Foreach) error {
 
 func (c *compiler) compileLabel(e *Label) error {
 	c.appendCodeInfo(e)
-	v := c.pushVariable("$%" + e.Ident[1:])
+	// a new variable, not to share it with a label of the same name
+	v := c.createVariable("$%" + e.Ident[1:])
 	c.append(&code{op: opforklabel, v: v})
 	return c.compileQuery(e.Body)
 }
